@@ -4,6 +4,7 @@ import (
 	"encoding/base64"
 	"encoding/json"
 	"fmt"
+	"os"
 	"strings"
 	"time"
 
@@ -80,6 +81,9 @@ func (c C11Config) definition(h *server.VHist, id string) map[string]interface{}
 		def["transform"] = map[string]interface{}{"Type": "JavascriptTransform", "Code": base64.StdEncoding.EncodeToString([]byte(`function transform_entities(entities) { return entities; }`))}
 	case "js-drop-all":
 		def["transform"] = map[string]interface{}{"Type": "JavascriptTransform", "Code": base64.StdEncoding.EncodeToString([]byte(`function transform_entities(entities) { return []; }`))}
+	case "js-no-code":
+		// a transform block that names the type but carries no code: accepted, the job then has no transform
+		def["transform"] = map[string]interface{}{"Type": "JavascriptTransform"}
 	case "js-throws":
 		def["transform"] = map[string]interface{}{"Type": "JavascriptTransform", "Code": base64.StdEncoding.EncodeToString([]byte(`function transform_entities(entities) { throw "boom"; }`))}
 	}
@@ -89,7 +93,7 @@ func (c C11Config) definition(h *server.VHist, id string) map[string]interface{}
 func c11Configs() []C11Config {
 	var out []C11Config
 	for _, s := range []string{"dataset", "dataset-latest", "union", "multi", "sample"} {
-		for _, t := range []string{"none", "js-identity", "js-throws", "js-drop-all"} {
+		for _, t := range []string{"none", "js-identity", "js-throws", "js-drop-all", "js-no-code"} {
 			for _, k := range []string{"dataset", "devnull", "console", "failing", "missing-dataset"} {
 				for _, tr := range []string{"cron", "onchange"} {
 					for _, jt := range []string{"incremental", "fullsync"} {
@@ -111,8 +115,34 @@ type c11Out struct {
 	HarnessEr string             `json:"harness_error,omitempty"`
 }
 
-// c11Run offers one definition to the real scheduler and, if accepted, triggers it the way its trigger would.
+// c11Run offers one definition to the real scheduler and, if accepted, triggers it the way its trigger would; then
+// (differential) the same definition is run with a recording sink, once undisturbed and once per k with a second
+// request for the same job arriving while the sink handles its k-th call: the refused request must change nothing.
 func c11Run(cfg C11Config) (out c11Out) {
+	out, _ = c11RunOnce(cfg, -1)
+	if !out.Accepted || out.HarnessEr != "" || len(out.Viol) > 0 {
+		return
+	}
+	base, baseDigest := c11RunOnce(cfg, 0)
+	out.Viol = append(out.Viol, base.Viol...)
+	calls := 0
+	_, _ = fmt.Sscanf(baseDigest, "sinkCalls=%d", &calls)
+	if calls > 6 {
+		calls = 6
+	}
+	for k := 1; k <= calls; k++ {
+		o, d := c11RunOnce(cfg, k)
+		out.Viol = append(out.Viol, o.Viol...)
+		if len(o.Viol) == 0 && len(base.Viol) == 0 && d != baseDigest {
+			out.Viol = append(out.Viol, engine.Violation{Key: fmt.Sprintf("C11:refused-request-changes-run:k=%d|%s", k, cfg.String()),
+				What: fmt.Sprintf("%s: a second request for the same job arriving while the sink handles call %d (refused: the id is running) changes the run: undisturbed {%s}, disturbed {%s}", cfg.String(), k, baseDigest, d)})
+		}
+	}
+	return
+}
+
+// c11RunOnce: reenter < 0: the definition as it is; 0: recording sink; k > 0: recording sink and a second request during call k.
+func c11RunOnce(cfg C11Config, reenter int) (out c11Out, digest string) {
 	jw := jWorld()
 	h := jw.W.NewHist()
 	fail := func(clause, what string) {
@@ -145,8 +175,25 @@ func c11Run(cfg C11Config) (out c11Out) {
 		return
 	}
 	jb := jobs[0]
+	var rec *failSink
 	if cfg.Sink == "failing" {
-		jb.pipeline.spec().sink = &failSink{inner: jb.pipeline.spec().sink, h: h, F: map[string]bool{"e2": true}}
+		rec = &failSink{inner: jb.pipeline.spec().sink, h: h, F: map[string]bool{"e2": true}}
+		jb.pipeline.spec().sink = rec
+	} else if reenter >= 0 {
+		rec = &failSink{inner: jb.pipeline.spec().sink, h: h, F: map[string]bool{}}
+		jb.pipeline.spec().sink = rec
+	}
+	if reenter > 0 {
+		// a fullsync request that gets no ticket queues a retry on a real timer: far beyond the worker's life
+		_ = os.Setenv("JOB_FULLSYNC_RETRY_INTERVAL", "48h")
+		entered := false
+		rec.onCall = func(call int) error {
+			if call == reenter && !entered {
+				entered = true
+				jb.Run()
+			}
+			return nil
+		}
 	}
 	fullBefore, incrBefore := jw.Runner.raffle.ticketsFull, jw.Runner.raffle.ticketsIncr
 	start := time.Now()
@@ -193,6 +240,9 @@ func c11Run(cfg C11Config) (out c11Out) {
 	if !found && panicked == "" {
 		fail("no-run-result", "the run ended but no run result was stored for the job")
 	}
+	if rec != nil {
+		digest = fmt.Sprintf("sinkCalls=%d outcome=%s delivered=%v", rec.calls, out.Outcome, rec.delivered)
+	}
 	// re-run timers are real timers in this enumeration: their delay is a day, so none fires while the worker lives
 	// (a re-run firing during a later configuration would disturb its ticket accounting); re-runs are C17's subject
 	return
@@ -215,7 +265,7 @@ func init() {
 	})
 
 	engine.RegisterCheck("C11", func(r *engine.Run) {
-		r.Rule = "ENUM: the full cross product of 5 sources x 3 transforms x 4 sinks x 2 trigger types x 2 job types x 5 error-handler settings (1200 definitions) is offered to the real Scheduler.AddJob; every accepted definition is triggered the way its trigger does (cron: jobrunner-wrapped Run; onchange: Run as the event callback calls it) in a worker process; oracle: no panic leaves Run, the process survives, the run slot and ticket are released, a run result is stored. SCHED: concurrent run requests on overlapping ids (see parts). distinct = distinct (accept/outcome) digests"
+		r.Rule = "ENUM: the full cross product of 5 sources x 5 transforms x 5 sinks x 2 trigger types x 2 job types x 5 error-handler settings (2500 definitions) is offered to the real Scheduler.AddJob; every accepted definition is triggered the way its trigger does (cron: jobrunner-wrapped Run; onchange: Run as the event callback calls it) in a worker process; oracle: no panic leaves Run, the process survives, the run slot and ticket are released, a run result is stored; differential: the same definition with a recording sink, undisturbed and with a second request for the same job arriving during each of the sink's calls (up to the 6th), must give the same outcome, sink calls and deliveries (the refused request is a no-op). SCHED: concurrent run requests on overlapping ids (see parts). distinct = distinct (accept/outcome) digests"
 		r.Assumptions = []string{"a panic leaving job.Run terminates the hub (jobrunner re-panics in the cron goroutine; on-change jobs run in a bare goroutine)", "HTTP-typed sources/sinks/transforms are outside (need a peer)"}
 		cfgs := c11Configs()
 		start := time.Now()
